@@ -197,6 +197,90 @@ def monitor(sess, extra):
     return r
 
 
+def aliasing_sessions(env, reps):
+    """Arguments that are EQUAL to each other or derived from each other - relations a generator of
+    independent random arguments never produces: info == psk_id, info == psk, psk == psk_id, aad == info,
+    exporter context == info, sender identity key pair == recipient key pair, ephemeral randomness that
+    derives the sender's (or the recipient's) own key pair, enc == pkR on the receiving side."""
+    g = gen.G(env.rnd)
+    rnd = env.rnd
+    cw = cl.CaseW()
+    n = 0
+    for kem in gen.KEMS:
+        nsk = gen.nsk(kem)
+        for r in range(reps):
+            for mode in gen.MODES:
+                kdf, aead = rnd.choice(gen.KDFS), rnd.choice(gen.ALL_AEADS)
+                s = cw.session(kem, kdf, aead, sid="iA%d" % n)
+                n += 1
+                ikmR, ikmS = g.raw(nsk), g.raw(nsk)
+                s.call("derive_keypair", ikm=ikmR, out="kR")
+                s.call("derive_keypair", ikm=ikmS, out="kS")
+                x = g.raw(rnd.choice([1, 16, 32, 33, 100]))
+                y = g.raw(rnd.choice([1, 32, 64]))
+                for variant in ("info=pskid", "info=psk", "psk=pskid", "all_equal", "aad=info", "self_addressed", "eph=identity", "eph=recipient"):
+                    info, psk, pskid, aad, rng = g.raw(7), x, y, g.raw(5), g.raw(nsk)
+                    ks = "kS"
+                    if variant == "info=pskid":
+                        info = pskid
+                    elif variant == "info=psk":
+                        info = psk
+                    elif variant == "psk=pskid":
+                        pskid = psk
+                    elif variant == "all_equal":
+                        info = pskid = aad = psk
+                    elif variant == "aad=info":
+                        aad = info
+                    elif variant == "self_addressed":
+                        ks = "kR"
+                    elif variant == "eph=identity":
+                        rng = ikmS
+                    elif variant == "eph=recipient":
+                        rng = ikmR
+                    pa = dict(psk=psk, pskid=pskid) if mode in (1, 3) else {}
+                    sa = dict(sks="$%s.sk" % ks, pks="$%s.pk" % ks, **pa) if mode in (2, 3) else dict(pa)
+                    ra = dict(pks="$%s.pk" % ks, **pa) if mode in (2, 3) else dict(pa)
+                    s.call("setup_s", mode=mode, pkr="$kR.pk", info=info, rng=rng.hex() + "aa" * 8, out="S", alias=variant, **sa)
+                    s.call("setup_r", mode=mode, skr="$kR.sk", enc="$S.enc", info=info, out="R", alias=variant, **ra)
+                    if aead != 0xFFFF:
+                        s.call("seal", ctx="S", api="alloc", pt=aad, aad=aad, out="m")
+                        s.call("open", ctx="R", api="alloc", ct="$m.full", aad=aad)
+                    s.call("export", ctx="S", exctx=info, len=32)
+                    s.call("export", ctx="R", exctx=info, len=32)
+                # the recipient's own public key presented as encapsulated key (it is a valid enc)
+                s.call("setup_r", mode=0, skr="$kR.sk", enc="$kR.pk", info="-", out="Rself", alias="enc=pkR")
+                s.call("export", ctx="Rself", exctx="-", len=32)
+    return cw.text()
+
+
+def sweep_sessions(env, top, step_setup):
+    """Every length 0..top of the exporter context (cheap), and every step_setup-th length of info, psk_id,
+    psk and aad - fixed-size scratch buffers somewhere between a few hundred bytes and a few KiB are where
+    'assemble it on the stack' refactorings go wrong at exactly one length."""
+    g = gen.G(env.rnd)
+    cw = cl.CaseW()
+    for i, kdf in enumerate(gen.KDFS):
+        s = cw.session(0x0020, kdf, [1, 3, 0xFFFF][i], sid="iW%d" % kdf)
+        gen.add_pair(s, g, 0x0020, 1, psk="@z:70:40", pskid="@z:69:9", rng=g.raw(32).hex() + "aa" * 8)
+        for L in range(0, top + 1):
+            s.call("export", ctx="S" if L & 1 else "R", exctx="@r:%d:%d" % (1000 + L, L), len=32)
+        off = env.rnd.randrange(step_setup)
+        for L in sorted(set(list(range(off, top + 1, step_setup)) + [255, 256, 257, 490, 491, 492, 511, 512, 513, 1003, 1004, 1023, 1024, 1025, 2047, 2048, 2049])):
+            if L > top:
+                continue
+            blob = "@r:%d:%d" % (5000 + L, L)
+            s.call("setup_s", mode=1, pkr="$kR.pk", info=blob, psk="@z:70:40", pskid="@z:69:9", rng=g.raw(32).hex() + "aa" * 8, out="X")
+            s.call("export", ctx="X", exctx="-", len=16)
+            if L:
+                s.call("setup_s", mode=1, pkr="$kR.pk", info="-", psk="@z:70:40", pskid=blob, rng=g.raw(32).hex() + "aa" * 8, out="X")
+                s.call("export", ctx="X", exctx="-", len=16)
+                s.call("setup_s", mode=1, pkr="$kR.pk", info="-", psk=blob, pskid="@z:69:9", rng=g.raw(32).hex() + "aa" * 8, out="X")
+                s.call("export", ctx="X", exctx="-", len=16)
+            if s.ids[2] != 0xFFFF:
+                s.call("seal", ctx="X", api="inplace", pt="00", aad=blob)
+    return cw.text()
+
+
 def monitor_all(sess, extra):
     """like monitor, but every operation of the session is compared (long histories)"""
     return monitor(sess, "all")
@@ -229,10 +313,16 @@ def run(env):
     per_cell, nmsgs = env.pick((3, 8), (30, 60))
     for direction in ("impl", "ref"):
         text = generate(env, direction, per_cell, nmsgs)
-        res = env.drive(direction, text)
-        env.require_complete(res, direction)
-        env.pmap(monitor, res.sessions, workload="%s-sender" % direction)
+        for build in ("checked", "fast"):
+            # "fast" = what a user ships: code that only runs inside debug_assert! is gone there
+            res = env.drive(direction, text, build=build)
+            env.require_complete(res, direction + "/" + build)
+            env.pmap(monitor, res.sessions, workload="%s-sender" % direction)
         env.extra_cov["sessions_%s" % direction] = len(res.sessions)
+    for name, text in (("alias", aliasing_sessions(env, env.pick(1, 6))), ("sweep", sweep_sessions(env, *env.pick((2200, 29), (4200, 7))))):
+        res = env.drive(name, text)
+        env.require_complete(res, name)
+        env.pmap(monitor_all, res.sessions, workload="long")
     text = long_sessions(env, env.pick(300, 70000))
     res = env.drive("long", text)
     env.require_complete(res, "long")
